@@ -24,7 +24,8 @@ import (
 	"sync/atomic"
 	"time"
 
-	"github.com/grafana/carbon-relay-ng/matcher"
+	"github.com/grafana/carbon-relay-ng/destination"
+	"github.com/grafana/carbon-relay-ng/route"
 	"github.com/grafana/carbon-relay-ng/table"
 
 	"verifharness/mon"
@@ -141,13 +142,42 @@ func topRepoFrame(block string) (state, frame string) {
 	return state, ""
 }
 
+// countRoute is the healthy second route: it accepts everything and only counts the lines of
+// its case (keeping every line, as mon.CaptureRoute does, costs hundreds of MB here and makes
+// the garbage collector part of the measurement).
+type countRoute struct {
+	prefix []byte
+	n      int64
+}
+
+func (c *countRoute) Dispatch(buf []byte) {
+	if bytes.HasPrefix(buf, c.prefix) {
+		atomic.AddInt64(&c.n, 1)
+	}
+}
+func (c *countRoute) Match(s []byte) bool { return true }
+func (c *countRoute) Snapshot() route.Snapshot {
+	return route.Snapshot{Type: "count", Key: "capB"}
+}
+func (c *countRoute) Key() string     { return "capB" }
+func (c *countRoute) Flush() error    { return nil }
+func (c *countRoute) Shutdown() error { return nil }
+func (c *countRoute) GetDestination(index int) (*destination.Destination, error) {
+	return nil, fmt.Errorf("no destinations")
+}
+func (c *countRoute) DelDestination(index int) error { return fmt.Errorf("no destinations") }
+func (c *countRoute) UpdateDestination(index int, opts map[string]string) error {
+	return fmt.Errorf("no destinations")
+}
+func (c *countRoute) Update(opts map[string]string) error { return fmt.Errorf("not supported") }
+
 // ---- one case --------------------------------------------------------------
 
 type runner struct {
 	res   *mon.Result
 	c     scase
 	t     *table.Table
-	capB  *mon.CaptureRoute
+	capB  *countRoute
 	ep    *mon.Endpoint
 	dkey  string
 	seq   int64
@@ -420,8 +450,7 @@ func runCase(res *mon.Result, c scase) {
 		res.Violate("harness-setup", err.Error(), c)
 		return
 	}
-	m, _ := matcher.New("", "", "", "", "", "")
-	r.capB = mon.NewCaptureRoute("capB", m, nil)
+	r.capB = &countRoute{prefix: []byte(fmt.Sprintf("c06.%d.l", c.Index))}
 	r.t.AddRoute(r.capB)
 	r.wgM.Add(1)
 	go r.monitor()
@@ -547,13 +576,7 @@ func runCase(res *mon.Result, c scase) {
 		r.steadyUp("after reconnecting", h, base, d)
 	}
 	// other routes were not starved: the capture route saw every line handed in (plus probes)
-	gotB := 0
-	prefix := fmt.Sprintf("c06.%d.l", c.Index)
-	for _, l := range r.capB.Lines() {
-		if strings.HasPrefix(l, prefix) {
-			gotB++
-		}
-	}
+	gotB := int(atomic.LoadInt64(&r.capB.n))
 	if gotB != total {
 		w := r.witness()
 		w["handed"], w["second_route_received"] = total, gotB
